@@ -86,10 +86,12 @@ def parse_val(tok):
     return ("x", c04.unhx(r))
 
 
-def py_val(v, t):
+def py_val(v, t, mutable=False):
     if v is None:
         return None
     k, x = v
+    if k == "x" and mutable:
+        return bytearray(x)       # an application-owned buffer object the library must not consume
     if k == "f":
         eb, mb = (8, 23) if t == 0x08 else (11, 52)
         return c04.bits_to_float(x, eb, mb)
@@ -136,13 +138,16 @@ def parse_od(s):
     return res
 
 
+MUTABLE_VALUES = False        # set by run_impl for `up2`: byte-string values are bytearrays kept by the application
+
+
 def mk_var(name, idx, sub, vd):
     t, a, v, d = vd
     var = od.ODVariable(name, idx, sub)
     var.data_type = t
     var.access_type = ACCESS[a]
-    var.value = py_val(v, t)
-    var.default = py_val(d, t)
+    var.value = py_val(v, t, mutable=MUTABLE_VALUES)
+    var.default = py_val(d, t, mutable=MUTABLE_VALUES)
     return var
 
 
@@ -201,8 +206,13 @@ class Rig:
                     types[(idx, sub)] = vd[0]
         self.cb = cb
         if cb:
+            keep = {}
+
             def rcb(index, subindex, od, **kw):
                 v = cb.get((index, subindex))
+                if v is not None and MUTABLE_VALUES and v[0] == "x":
+                    # the application hands out the same buffer object every time
+                    return keep.setdefault((index, subindex), bytearray(v[1]))
                 return None if v is None else py_val(v, od.data_type)
             self.node.add_read_callback(rcb)
         self.node.add_write_callback(
@@ -343,10 +353,16 @@ def show_sent(frames, raised):
 
 
 def run_impl(op):
+    global MUTABLE_VALUES
     a = op.split(" ")
     entries = parse_od(a[1])
     cb = parse_cb(a[2])
-    rig = Rig(entries, cb)
+    MUTABLE_VALUES = a[0] == "up2"
+    try:
+        rig = Rig(entries, cb)
+    finally:
+        MUTABLE_VALUES_WAS, MUTABLE_VALUES = MUTABLE_VALUES, False
+    MUTABLE_VALUES = MUTABLE_VALUES_WAS
     if a[0] == "srv":
         outs = [show_sent(*rig.request(f)) for f in frames_of(a[3])]
         return f"{','.join(outs) if outs else '-'} | store: {rig.store_view()} | log: {rig.log_view()}"
@@ -355,6 +371,12 @@ def run_impl(op):
     idx, sub = int(a[4]), int(a[5])
     if a[0] == "up":
         return ref_upload(rig, idx, sub)
+    if a[0] == "up2":
+        # the same entry uploaded twice (the value is a buffer object the application keeps)
+        try:
+            return ref_upload(rig, idx, sub) + " ; " + ref_upload(rig, idx, sub)
+        finally:
+            MUTABLE_VALUES = False
     if a[0] == "down":
         data = c04.unhx(a[6])
         x = ref_download(rig, idx, sub, data, a[7] == "1", c04.unnl(a[8]))
@@ -474,6 +496,13 @@ def oracle(op, out):
     if a[0] == "srv":
         return check_frames(pre, out.split(" | ")[0])
     idx, sub = int(a[4]), int(a[5])
+    if a[0] == "up2":
+        first, _, second = out.partition(" ; ")
+        w = oracle(" ".join(["up"] + a[1:]), first)
+        if w:
+            return w
+        w = oracle(" ".join(["up"] + a[1:]), second)
+        return ("second " + w) if w else None
     if a[0] == "up":
         if out == "protocol":
             return "the strict reference client rejected a response during upload"
@@ -699,6 +728,9 @@ def gen_ops(tier, rng):
                 vd = (t, 0, val if pat & 1 else None, rand_value(t, rng, 8) if pat & 2 else None)
                 yield f"up {od_token([('v', 0x2000, vd)])} - - 8192 0"
             yield f"up {od_token([('v', 0x2000, (t, 0, None, None))])} {cb_token([((0x2000, 0), val)])} - 8192 0"
+            if t != 0x09 and n in (0, 1, 4, 5, 7, 8, 20, 64):
+                yield f"up2 {od_token([('v', 0x2000, (t, 0, val, None))])} - - 8192 0"
+                yield f"up2 {od_token([('v', 0x2000, (t, 0, None, None))])} {cb_token([((0x2000, 0), val)])} - 8192 0"
             data = val[1] if t != 0x09 else bytes(val[1])
             chunks = rng.choice([[7], [1], [3], [rng.randint(1, 7) for _ in range(10)]])
             yield (f"down {od_token([('r', 0x2000, [(2, (t, 0, None, None))])])} - - 8192 2 {c04.hx(data)} "
